@@ -3,12 +3,21 @@ import pandas as pd
 import vlib
 from vlib import Sym
 
-def impl_relatives(E, desc, cutoff, keep, starts):
+def impl_relatives(E, desc, cutoff, keep, starts, before=None):
+    """before: an edge list of the same length; the edge table first holds `before` and is queried once, is then edited IN PLACE (cell assignments,
+    same object, same shape) to hold E, and is queried again - the answer must be the one for the table's current content"""
     from opcua_tools.navigation import find_relatives
     try:
         nodes = pd.DataFrame({"id": pd.Series(starts, dtype="int64")})
-        edges = pd.DataFrame({"Src": pd.Series([a for a, _ in E], dtype="int64"), "Trg": pd.Series([b for _, b in E], dtype="int64")})
+        E0 = E if before is None else before
+        edges = pd.DataFrame({"Src": pd.Series([a for a, _ in E0], dtype="int64"), "Trg": pd.Series([b for _, b in E0], dtype="int64")})
         nodes = vlib.relabel(nodes, 1); edges = vlib.relabel(edges, 2)
+        if before is not None:
+            try: find_relatives(nodes=nodes, nodes_key_col="id", edges=edges, relative_type="descendant" if desc else "ancestor", cutoff=cutoff, keep_paths=keep)
+            except BaseException: pass
+            for i, ((a0, b0), (a1, b1)) in enumerate(zip(before, E)):
+                if a0 != a1: edges.iloc[i, edges.columns.get_loc("Src")] = a1
+                if b0 != b1: edges.iloc[i, edges.columns.get_loc("Trg")] = b1
         df = find_relatives(nodes=nodes, nodes_key_col="id", edges=edges, relative_type="descendant" if desc else "ancestor", cutoff=cutoff, keep_paths=keep)
         pcols = sorted(c for c in df.columns if isinstance(c, int))
         rows = []
@@ -106,10 +115,12 @@ def depth(E):
 
 def judge(kind, p):
     fails = []
-    if kind == "relatives":
+    if kind in ("relatives", "relatives-inplace"):
+        before = None
+        if kind == "relatives-inplace": before, p = [tuple(e) for e in p[0]], p[1:]
         E, desc, cutoff, keep, starts = p
         E = [tuple(e) for e in E]
-        out = impl_relatives(E, desc, cutoff, keep, starts)
+        out = impl_relatives(E, desc, cutoff, keep, starts, before)
         acyc = is_acyclic(E)
         if acyc or cutoff is not None:
             spec = sorted([w[0], w[1], w[2], w[3] if keep else []] for w in walks(E, desc, cutoff, starts))
@@ -158,6 +169,18 @@ def check(ctx):
                 for keep in (True, False):
                     reqs.append([Sym("c13_relatives"), [list(e) for e in E], desc, None if cutoff is None else [cutoff], keep, starts])
                     meta.append(("relatives", ([list(e) for e in E], desc, cutoff, keep, starts), feats + ["cutoff" if cutoff is not None else "uncut", "keep" if keep else "nokeep", "desc" if desc else "anc"]))
+    # the same edge table object, edited in place between two queries (one edge re-pointed: same shape, other content)
+    for _ in range(25 if ctx.quick() else 400):
+        ids, E, feats = random_dag(rng, 7)
+        if len(E) < 2 or len(ids) < 3: continue
+        E2 = [tuple(e) for e in E]; i = rng.randrange(len(E2)); a, b = E2[i]
+        E2[i] = (a, rng.choice([x for x in ids if x != b])) if rng.random() < 0.5 else (rng.choice([x for x in ids if x != a]), b)
+        starts = rng.sample(ids, min(len(ids), rng.randint(1, 2)))
+        cyc = not is_acyclic(E2)
+        for cutoff in ([rng.randint(0, 3)] if cyc else [None, rng.randint(0, 3)]):
+            desc = rng.random() < 0.5; keep = rng.random() < 0.5
+            reqs.append([Sym("c13_relatives"), [list(e) for e in E2], desc, None if cutoff is None else [cutoff], keep, starts])
+            meta.append(("relatives-inplace", ([list(e) for e in E], [list(e) for e in E2], desc, cutoff, keep, starts), feats + ["edited-in-place"]))
     # deep trees first: a chain of 14 nodes and a comb of depth 12 (walks and paths longer than nine steps)
     deep = []
     chain = list(range(100, 114)); deep.append((chain, [(chain[i], chain[i + 1]) for i in range(len(chain) - 1)], ["deep-chain"]))
@@ -186,7 +209,7 @@ def check(ctx):
         meta.append(("paths", (sorted(names.items()), refs, root, tnames), feats))
     ans = vlib.run_model(reqs, shards=8)
     for (kind, p, feats), a in zip(meta, ans):
-        mo = dec_rows(a) if kind == "relatives" else dec_paths(a)
+        mo = dec_rows(a) if kind.startswith("relatives") else dec_paths(a)
         out, nontriv, fails = judge(kind, p)
         ctx.record([kind, p], nontriv, feats + [kind])
         stream = kind
